@@ -90,6 +90,9 @@ def calm_cases(rng, tier, classes, per_q, per_t, hist='short', want_ref=False, o
             scale = 1.0 if (shifty or 'SymG' in cls) else rng.choice([1.0, 1.0, 1e-3, 1e3])
             sel = rng.choice(sels); srt = rng.choice(sorts)
             start = 'I' if rng.below(2) else 'V:r%d' % rng.below(1000)
+            if is_gen(cls) and h % 4 == 3:
+                # Krylov breakdown: block-diagonal normal matrix, start vector inside the invariant subspace of the leading block
+                gfam = 'gblock'; start = 'V:b%d' % rng.below(1000); ncv = max(ncv, min(n, max(2, n // 3) + 2))
             if only_full:
                 ops = [start, 'C:%d:1000:1e-10:%d' % (sel, srt)]
             else:
